@@ -6,7 +6,7 @@ RULE = ("real Graphs (adj/rev filled as edge_loader.rs does, every 25th random c
         "Graph::from_files): ALL digraphs on <=3 vertices (thorough: <=4) without parallel edges incl. self loops, "
         "deterministic chains / cycles / chains of cycles / stars of degree >5 / complete graphs / parallel edges / "
         "isolated vertices, then random graphs (sparse, dense, chain with back edges, planted components, hubs, "
-        "nested cycles, multigraphs; up to 40 vertices quick, 200 thorough, random relabelling and edge order). "
+        "nested cycles, multigraphs; up to 40 vertices quick, 80 thorough (deterministic chains/cycles up to 200), random relabelling and edge order). "
         "I = canonical components + largest of all_strongly_connected_componenets / largest_strongly_connected_component, "
         "M = the same from the Coq model, S = verified checker check_scc/check_largest on the implementation's raw output; "
         "non-trivial = at least one component of size >=2 and at least 2 components; distinct by (n, edge list)")
@@ -19,9 +19,12 @@ def classify(case, i, m, s):
 def run(chk):
     chk.coverage["trusted_base"] = [
         "Coq 8.16.1 kernel + vm_compute",
-        "hand-written model coq/Model/Scc.v (tied by this correspondence run); Graph::out_edges/in_edges order = edge id order "
-        "(insertion order of CompactOrderedHashMap, property C11)",
+        "hand-written model coq/Model/Scc.v of scc.rs (proved correct for every well-formed digraph: Props/C18.v "
+        "c18_kosaraju_correct / c18_largest_maximal; tied to the Rust code by this correspondence run, I = M); "
+        "Graph::out_edges/in_edges order = edge id order (insertion order of CompactOrderedHashMap, property C11)",
         "HashSet<VertexId> used only through contains/insert/clear, modelled as a list",
+        "the S lines do not depend on the model: check_scc/check_largest (proved to accept exactly the correct answers, "
+        "c18_check_scc_decides) are evaluated in Coq on the implementation's raw output",
         "Rust harness harness/src/bin/c18.rs and this driver"]
     chk.assumptions = ["the graph is a digraph proper: every edge endpoint is an existing vertex (Scc.wf); "
                        "with a dangling endpoint the loader skips that side silently and the result mentions a non-vertex "
@@ -30,7 +33,7 @@ def run(chk):
     chk.proofs(extra_targets=["Model/SccRun.vo"])
     binp = vf.build_harness("c18")
     thorough = chk.tier != "quick"
-    n = 6000 if thorough else 350
+    n = 4000 if thorough else 350
     extra = ["--exh4"] if thorough else []
     r = vf.run_stream(binp, "scc", n, chk.seed, os.path.join(chk.outdir, "scc"), extra=extra, replay=chk.replay)
     chk.add_stream(r, RULE)
